@@ -69,7 +69,7 @@ def doc_content(d):
 
 EDITS = ["none", "permute", "rename-prefix", "duplicate", "rebuild",
          "add-attr", "change-formal", "change-id", "remove-record", "add-record", "swap-type",
-         "add-bundle", "remove-bundle", "add-member", "remove-member"]
+         "add-bundle", "remove-bundle", "add-member", "remove-member", "value-kind", "value-kind-both"]
 
 
 def rebuild(g, w, b, src, edit):
@@ -100,7 +100,29 @@ def rebuild(g, w, b, src, edit):
     for i in top:
         h = w.rec_at(src, i)
         rec = w.recs[h]
-        if i == victim and edit in ("change-id", "swap-type", "change-formal"):
+        if i == victim and edit in ("value-kind", "value-kind-both"):
+            # the same URI as a value of the other kind (qualified name <-> xsd:anyURI): another value, hence another record;
+            # "-both": the record holds both
+            attrs = list(rec.attributes)
+            cands = [(a, v) for (a, v) in rec.extra_attributes if isinstance(v, Identifier)]
+            if cands:
+                a0, v0 = r.choice(cands)
+                if isinstance(v0, QualifiedName):
+                    v1 = Identifier(v0.uri)
+                else:
+                    cut = max(v0.uri.rfind("/"), v0.uri.rfind("#"), v0.uri.rfind(":")) + 1
+                    v1 = QualifiedName(Namespace("vk", v0.uri[:cut]), v0.uri[cut:])
+                if edit == "value-kind":
+                    attrs = [(a, (v1 if (a == a0 and v is v0) else v)) for (a, v) in attrs]
+                else:
+                    attrs.append((a0, v1))
+            else:
+                q0 = QualifiedName(Namespace("ex", "http://example.org/"), "thing")
+                attrs.append((QualifiedName(Namespace("ex", "http://example.org/"), "ref"), q0))
+                if edit == "value-kind-both":
+                    attrs.append((QualifiedName(Namespace("ex", "http://example.org/"), "ref"), Identifier(q0.uri)))
+            w.new_record(dst, rec.get_type().localpart, rec.identifier, attrs)
+        elif i == victim and edit in ("change-id", "swap-type", "change-formal"):
             kind = rec.get_type().localpart
             ident = rec.identifier
             attrs = list(rec.attributes)
